@@ -162,8 +162,16 @@ def _c04_namespace(res, case, lab, o):
         kw["domain"] = dec(dn["v"])
     path = root_nd["p"]
     # class NS: [class S:] LEAF = Option('LEAF', default=..., domain=...)
-    inner = type(path[-1] + "_holder", (), {})
-    ns_dict = {path[-1]: lab.Option(path[-1], **kw)}
+    # the member is declared in one of the equivalent documented forms
+    form = (len(canon_nodes(case)) + len(path)) % 4
+    if form == 1:
+        ns_dict = {path[-1]: lab.Option.auto(**kw)}
+    elif form == 2 and "domain" not in kw and "default" in kw and not callable(kw["default"]):
+        ns_dict = {path[-1]: kw["default"]}                     # A = 5
+    elif form == 3 and not kw:
+        ns_dict = {"__annotations__": {path[-1]: object}}      # A: int
+    else:
+        ns_dict = {path[-1]: lab.Option(path[-1], **kw)}
     explicit = (len(canon_nodes(case)) + len(repr(o))) % 2 == 0
     for depth, seg in enumerate(reversed(path[:-1])):
         cls = type(seg, (), ns_dict)
